@@ -73,22 +73,7 @@ Qed.
 Definition rule_degree (order : nat) : nat :=
   match order with 0 => 2 | 1 => 4 | 2 => 5 | _ => 8 end%nat.
 
-Lemma rule0_moments_ok : moments_ok (rule_of_order 0) (rule_degree 0) = true. Proof. vm_compute. reflexivity. Qed.
-Lemma rule1_moments_ok : moments_ok (rule_of_order 1) (rule_degree 1) = true. Proof. vm_compute. reflexivity. Qed.
-Lemma rule2_moments_ok : moments_ok (rule_of_order 2) (rule_degree 2) = true. Proof. vm_compute. reflexivity. Qed.
-Lemma rule3_moments_ok : moments_ok (rule_of_order 3) (rule_degree 3) = true. Proof. vm_compute. reflexivity. Qed.
-
-Lemma rule_moments order : (order <= 3)%nat ->
-  forall a b c, (a + b + c <= rule_degree order)%nat ->
-    - eps14 <= moment (rule_of_order order) a b c - dirichletQ a b c /\
-    moment (rule_of_order order) a b c - dirichletQ a b c <= eps14.
-Proof.
-  intros Ho. destruct order as [|[|[|[|o]]]]; try lia.
-  - apply moments_ok_spec, rule0_moments_ok.
-  - apply moments_ok_spec, rule1_moments_ok.
-  - apply moments_ok_spec, rule2_moments_ok.
-  - apply moments_ok_spec, rule3_moments_ok.
-Qed.
+(* the sweeps themselves (rule_moments) are in Geom/QuadTablesBig.v: same statements, evaluated with BigZ *)
 
 (* the degrees are sharp: one degree higher, a monomial is off by more than 1e-7 *)
 Definition eps7 : Q := 1 # 10000000.
